@@ -46,6 +46,7 @@ fn main() {
                 "C10" => binbind::bind_c10(&mut rep),
                 "C11" => binbind::bind_c11(&mut rep),
                 "C14" => binbind::bind_c14(&mut rep),
+                "C17" => binbind::bind_c17(&mut rep),
                 _ => binbind::bind_c20(&mut rep),
             }
             for v in &rep.violations {
@@ -61,6 +62,14 @@ fn main() {
     std::process::exit(code)
 }
 
+/// run one part of a check; a panic inside it is a machinery error of that part, the other parts still run
+fn part(rep: &mut Report, name: &str, f: impl FnOnce(&mut Report)) {
+    let r = std::panic::catch_unwind(std::panic::AssertUnwindSafe(|| f(rep)));
+    if r.is_err() {
+        rep.machinery_errors.push(format!("part '{}' panicked (see above)", name));
+    }
+}
+
 fn run_check(id: &str) -> i32 {
     // watchdog: a check never hangs; running out of wall time is a machinery error, never a verdict
     let limit = if report::tier() == "thorough" { 4 * 3600 } else { 20 * 60 };
@@ -73,35 +82,38 @@ fn run_check(id: &str) -> i32 {
         "C01" | "C04" | "C06" | "C07" | "C08" | "C10" | "C11" | "C17" | "C20" => {
             let mut rep = Report::new(id, "model_checking");
             match id {
-                "C01" => e1::check_c01(&mut rep),
+                "C01" => part(&mut rep, "exploration", e1::check_c01),
                 "C04" => {
-                    e1::check_c04(&mut rep);
-                    binbind::bind_c04(&mut rep)
+                    part(&mut rep, "exploration", e1::check_c04);
+                    part(&mut rep, "binary scenarios", binbind::bind_c04)
                 }
                 "C06" => {
-                    e1::check_c06(&mut rep);
-                    binbind::bind_c06(&mut rep)
+                    part(&mut rep, "exploration", e1::check_c06);
+                    part(&mut rep, "binary scenarios", binbind::bind_c06)
                 }
                 "C07" => {
-                    e1::check_c07(&mut rep);
-                    binbind::bind_c07(&mut rep)
+                    part(&mut rep, "exploration", e1::check_c07);
+                    part(&mut rep, "binary scenarios", binbind::bind_c07)
                 }
                 "C08" => {
-                    e1::check_c08(&mut rep);
-                    binbind::bind_c08(&mut rep)
+                    part(&mut rep, "exploration", e1::check_c08);
+                    part(&mut rep, "binary scenarios", binbind::bind_c08)
                 }
                 "C10" => {
-                    e1::check_c10(&mut rep);
-                    binbind::bind_c10(&mut rep)
+                    part(&mut rep, "exploration", e1::check_c10);
+                    part(&mut rep, "binary scenarios", binbind::bind_c10)
                 }
                 "C11" => {
-                    e1::check_c11(&mut rep);
-                    binbind::bind_c11(&mut rep)
+                    part(&mut rep, "exploration", e1::check_c11);
+                    part(&mut rep, "binary scenarios", binbind::bind_c11)
                 }
-                "C17" => e1::check_c17(&mut rep),
+                "C17" => {
+                    part(&mut rep, "exploration", e1::check_c17);
+                    part(&mut rep, "binary scenarios", binbind::bind_c17)
+                }
                 _ => {
-                    e1::check_c20(&mut rep);
-                    binbind::bind_c20(&mut rep)
+                    part(&mut rep, "exploration", e1::check_c20);
+                    part(&mut rep, "binary scenarios", binbind::bind_c20)
                 }
             }
             rep.finish()
